@@ -14,7 +14,10 @@ PROPS = ("C09",)
 
 
 def plan(tier, seed):
-    return ec.plan_e2e(seed, 9, MIX, 180 if tier == "quick" else 2000, nwcap=12 if tier == "quick" else 24)
+    specs = ec.plan_e2e(seed, 9, MIX, 180 if tier == "quick" else 2000, nwcap=12 if tier == "quick" else 24)
+    if tier == \"thorough\":
+        specs += ec.fixture_specs()
+    return specs
 
 
 def nontrivial(run, I):
